@@ -429,7 +429,7 @@ func c02Doc(r *rand.Rand, o genOpts) map[string]any {
 func init() {
 	register(&Prop{
 		ID:   "C02",
-		Rule: "documents with path-safe keys (incl. all-digit keys), lists in lists to depth 4, lists of containers, mixed; each document built along one of four routes (builder API, FromMap, FromReader of its YAML text, builder with equal composite values attached as one shared instance); a quarter of the documents contain a 5-9 level chain with siblings at every level, a sixth a list of 11-13 items. kinds: flatten (whole Flatten map as a set + count of scalar positions), lookup (a flattened path: must be pointer-identical to the flattened leaf), lookup-other (prefixes / neighbours / junk paths), pointer (xform.PointerFromPropPathString(p).Eval), parsepath (segments; also adversarial raw strings), search (equals-value / is-string / always; as a set), rebuild (AddValueAt of every flattened pair in a random permutation into an empty document; documents in which every list item contains a scalar). Non-trivial: document has a list inside a list. Distinct by Gallina term. Search predicates include 'is an int' / 'is a float64' (the predicate must see the very value Flatten exposes). A fifth construction route composes the document of sealed parts; two-digit list positions are addressed whenever the document has any. Positions whose index is 9 are taken like two-digit ones.",
+		Rule: "documents with path-safe keys (incl. all-digit keys), lists in lists to depth 4, lists of containers, mixed; each document built along one of four routes (builder API, FromMap, FromReader of its YAML text, builder with equal composite values attached as one shared instance); a quarter of the documents contain a 5-9 level chain with siblings at every level, a sixth a list of 11-13 items. kinds: flatten (whole Flatten map as a set + count of scalar positions), lookup (a flattened path: must be pointer-identical to the flattened leaf), lookup-other (prefixes / neighbours / junk paths), pointer (xform.PointerFromPropPathString(p).Eval), parsepath (segments; also adversarial raw strings), search (equals-value / is-string / always; as a set), rebuild (AddValueAt of every flattened pair in a random permutation into an empty document; documents in which every list item contains a scalar). Non-trivial: document has a list inside a list. Distinct by Gallina term. Search predicates include 'is an int' / 'is a float64' (the predicate must see the very value Flatten exposes). A fifth construction route composes the document of sealed parts; two-digit list positions are addressed whenever the document has any. Positions whose index is 9 are taken like two-digit ones. Go-side probes every 96th case: a list of 1100-1600 items, a scalar 70 mappings deep, records nested 36 deep (Flatten count, Lookup, Search, rebuild in random order, FromProperties).",
 		Corpus: func() []Case {
 			r := rand.New(rand.NewSource(5))
 			d1 := map[string]any{"a": []any{[]any{1, 2}, []any{3}}}
